@@ -303,9 +303,10 @@ func (m *monitor) checkGlyph(l *local, fi *faceInfo, rf *refs, face *font.Face, 
 				}
 			}
 			switch {
-			case isVar && rawAgrees && !useMyMetrics:
-				cls += " [HVAR evaluated from the raw table agrees with the library and HarfBuzz; FreeType 2.12.1 differs]"
+			case useMyMetrics:
 				cls += " [USE_MY_METRICS composite whose own hmtx/HVAR entry differs from the component's: FreeType takes the component's metrics]"
+			case isVar && rawAgrees:
+				cls += " [HVAR evaluated from the raw table agrees with the library and HarfBuzz; FreeType 2.12.1 differs]"
 			case ftG.HoriAdvance < 0:
 				cls += " [negative phantom-point advance: FreeType does not clamp to 0]"
 			}
@@ -489,6 +490,20 @@ func (m *monitor) checkGlyph(l *local, fi *faceInfo, rf *refs, face *font.Face, 
 		switch {
 		case !gExtOK:
 			l.inc("verdict/extents=not-available-in-library")
+			// two decoders that both see a non-empty, identical box while the
+			// library has none at all: same defect family as a missing outline
+			if hbOK && ftHas && ftG.NPoints > 0 && gData == nil {
+				fb := box{float64(ftG.XMin), float64(ftG.YMin), float64(ftG.XMax), float64(ftG.YMax)}
+				t := tolFn(tolVarFTComposite)
+				if boxNear(hbB, fb, t) && (hbB[2] > hbB[0] || hbB[3] > hbB[1]) {
+					w := wit("extents")
+					w.Values["go"] = "GlyphExtents returned false, GlyphData nil"
+					w.Values["hb"], w.Values["ft"] = hbB.String(), fb.String()
+					l.inc("verdict/extents=violated")
+					l.inc("violated-observations-by-face/" + fi.id)
+					m.run.Violation("C10/extents/"+fi.tabK+"/no-glyph-data", fmt.Sprintf("%s: GlyphExtents reports no extents and GlyphData is nil, hb=%v ft=%v", where(), hbB, fb), w)
+				}
+			}
 		case noContours && hasStrikes:
 			// metrics of a bitmap strike scaled to font units: HarfBuzz is the
 			// only other reader, and it rounds the scaled values
@@ -513,6 +528,7 @@ func (m *monitor) checkGlyph(l *local, fi *faceInfo, rf *refs, face *font.Face, 
 				m.violation(l, "C10/extents/"+tabK+"/empty-glyph-nonempty-box", fmt.Sprintf("%s: glyph without contours in all decoders has extents %+v", where(), gExt), w)
 			} else if gExt.XBearing != 0 || gExt.YBearing != 0 {
 				l.inc("verdict/extents=empty-glyph-box-placement-convention")
+				m.run.Inconclusive("extents/" + fi.tabK + " [glyph without contours in every decoder: empty box (width=height=0 everywhere) placed at (lsb,0) by the library, at the origin by HarfBuzz/FreeType: placement of an empty box is a convention]")
 			} else {
 				l.inc("verdict/extents=held")
 			}
